@@ -23,7 +23,243 @@ func xlate(out string) error {
 	if err != nil {
 		return err
 	}
-	return os.WriteFile(filepath.Join(out, "Consts.v"), []byte(consts), 0o644)
+	if err := os.WriteFile(filepath.Join(out, "Consts.v"), []byte(consts), 0o644); err != nil {
+		return err
+	}
+	table, err := xlateSpecTable()
+	if err != nil {
+		return err
+	}
+	return os.WriteFile(filepath.Join(out, "SpecTable.v"), []byte(table), 0o644)
+}
+
+// ---------- the standard library's function specifications (cty/function/stdlib/*.go) ----------
+// For every `var XFunc = function.New(&function.Spec{...})`: the parameter constraints and flags, the
+// variadic parameter and the RefineResult callback (as refinement-builder calls), read from the syntax tree.
+func tyExpr(e ast.Expr) (string, bool) {
+	switch x := e.(type) {
+	case *ast.SelectorExpr:
+		if id, ok := x.X.(*ast.Ident); ok && id.Name == "cty" {
+			switch x.Sel.Name {
+			case "String":
+				return "TStr", true
+			case "Number":
+				return "TNum", true
+			case "Bool":
+				return "TBool", true
+			case "DynamicPseudoType":
+				return "TDyn", true
+			}
+		}
+	case *ast.Ident:
+		if x.Name == "Bytes" {
+			return "(TCap 100%N)", true
+		}
+	case *ast.CallExpr:
+		if se, ok := x.Fun.(*ast.SelectorExpr); ok && len(x.Args) == 1 {
+			if id, ok := se.X.(*ast.Ident); ok && id.Name == "cty" {
+				inner, ok := tyExpr(x.Args[0])
+				if !ok {
+					return "", false
+				}
+				switch se.Sel.Name {
+				case "List":
+					return "(TList " + inner + ")", true
+				case "Set":
+					return "(TSet " + inner + ")", true
+				case "Map":
+					return "(TMap " + inner + ")", true
+				}
+			}
+		}
+	}
+	return "", false
+}
+
+func boolField(cl *ast.CompositeLit, name string) string {
+	for _, el := range cl.Elts {
+		if kv, ok := el.(*ast.KeyValueExpr); ok {
+			if id, ok := kv.Key.(*ast.Ident); ok && id.Name == name {
+				if v, ok := kv.Value.(*ast.Ident); ok && v.Name == "true" {
+					return "true"
+				}
+			}
+		}
+	}
+	return "false"
+}
+
+func paramLit(e ast.Expr) (string, error) {
+	if u, ok := e.(*ast.UnaryExpr); ok {
+		e = u.X
+	}
+	cl, ok := e.(*ast.CompositeLit)
+	if !ok {
+		return "", fmt.Errorf("parameter is not a composite literal")
+	}
+	ty := ""
+	for _, el := range cl.Elts {
+		if kv, ok := el.(*ast.KeyValueExpr); ok {
+			if id, ok := kv.Key.(*ast.Ident); ok && id.Name == "Type" {
+				t, ok := tyExpr(kv.Value)
+				if !ok {
+					return "", fmt.Errorf("unsupported parameter type expression")
+				}
+				ty = t
+			}
+		}
+	}
+	if ty == "" {
+		return "", fmt.Errorf("parameter without Type")
+	}
+	return fmt.Sprintf("{| p_ty := %s; p_null := %s; p_unk := %s; p_dyn := %s; p_marked := %s |}", ty,
+		boolField(cl, "AllowNull"), boolField(cl, "AllowUnknown"), boolField(cl, "AllowDynamicType"), boolField(cl, "AllowMarked")), nil
+}
+
+// refineExpr: refineNonNull, or a literal func(b) { return b.NotNull().NumberRangeLowerBound(cty.NumberIntVal(k), incl) ... }
+func refineExpr(e ast.Expr) (string, error) {
+	if id, ok := e.(*ast.Ident); ok {
+		if id.Name == "refineNonNull" {
+			return "(Some [RcNotNull])", nil
+		}
+		return "", fmt.Errorf("unknown RefineResult function %s", id.Name)
+	}
+	fl, ok := e.(*ast.FuncLit)
+	if !ok || len(fl.Body.List) != 1 {
+		return "", fmt.Errorf("unsupported RefineResult expression")
+	}
+	rs, ok := fl.Body.List[0].(*ast.ReturnStmt)
+	if !ok || len(rs.Results) != 1 {
+		return "", fmt.Errorf("unsupported RefineResult body")
+	}
+	var calls []string
+	cur := rs.Results[0]
+	for {
+		ce, ok := cur.(*ast.CallExpr)
+		if !ok {
+			break
+		}
+		se, ok := ce.Fun.(*ast.SelectorExpr)
+		if !ok {
+			return "", fmt.Errorf("unsupported RefineResult chain")
+		}
+		switch se.Sel.Name {
+		case "NotNull":
+			calls = append([]string{"RcNotNull"}, calls...)
+		case "NumberRangeLowerBound", "NumberRangeUpperBound":
+			if len(ce.Args) != 2 {
+				return "", fmt.Errorf("bad bound call")
+			}
+			inner, ok := ce.Args[0].(*ast.CallExpr)
+			if !ok || len(inner.Args) != 1 {
+				return "", fmt.Errorf("bad bound value")
+			}
+			lit, ok := inner.Args[0].(*ast.BasicLit)
+			if !ok {
+				return "", fmt.Errorf("bad bound literal")
+			}
+			inc := "false"
+			if id, ok := ce.Args[1].(*ast.Ident); ok && id.Name == "true" {
+				inc = "true"
+			}
+			c := "RcNumLower"
+			if se.Sel.Name == "NumberRangeUpperBound" {
+				c = "RcNumUpper"
+			}
+			calls = append([]string{fmt.Sprintf("%s (v_int (%s)%%Z) %s", c, lit.Value, inc)}, calls...)
+		default:
+			return "", fmt.Errorf("unsupported refinement call %s", se.Sel.Name)
+		}
+		cur = se.X
+	}
+	return "(Some [" + strings.Join(calls, "; ") + "])", nil
+}
+
+func xlateSpecTable() (string, error) {
+	files, err := filepath.Glob(filepath.Join(repoRoot, "cty/function/stdlib/*.go"))
+	if err != nil {
+		return "", err
+	}
+	var sb strings.Builder
+	sb.WriteString("(* SpecTable.v — GENERATED on every run by `vh xlate` from cty/function/stdlib/*.go. Do not edit. *)\n")
+	sb.WriteString("From Coq Require Import List NArith ZArith String.\nFrom Cty Require Import Base Ty BigFloat Value Ops Refine Func.\nImport ListNotations.\nOpen Scope Z_scope.\n\n")
+	sb.WriteString("Record sentry := { se_name : str; se_params : list param; se_var : option param; se_refine : option (list rcall) }.\n\n")
+	var entries []string
+	for _, file := range files {
+		if strings.HasSuffix(file, "_test.go") {
+			continue
+		}
+		fset := token.NewFileSet()
+		f, err := parser.ParseFile(fset, file, nil, 0)
+		if err != nil {
+			return "", err
+		}
+		for _, d := range f.Decls {
+			gd, ok := d.(*ast.GenDecl)
+			if !ok || gd.Tok != token.VAR {
+				continue
+			}
+			for _, sp := range gd.Specs {
+				vs, ok := sp.(*ast.ValueSpec)
+				if !ok || len(vs.Names) != 1 || len(vs.Values) != 1 || !strings.HasSuffix(vs.Names[0].Name, "Func") {
+					continue
+				}
+				ce, ok := vs.Values[0].(*ast.CallExpr)
+				if !ok || len(ce.Args) != 1 {
+					continue
+				}
+				if se, ok := ce.Fun.(*ast.SelectorExpr); !ok || se.Sel.Name != "New" {
+					continue
+				}
+				u, ok := ce.Args[0].(*ast.UnaryExpr)
+				if !ok {
+					continue
+				}
+				cl, ok := u.X.(*ast.CompositeLit)
+				if !ok {
+					continue
+				}
+				name := strings.TrimSuffix(vs.Names[0].Name, "Func")
+				var params []string
+				varp, refine := "None", "None"
+				for _, el := range cl.Elts {
+					kv, ok := el.(*ast.KeyValueExpr)
+					if !ok {
+						continue
+					}
+					switch kv.Key.(*ast.Ident).Name {
+					case "Params":
+						pl, ok := kv.Value.(*ast.CompositeLit)
+						if !ok {
+							return "", fmt.Errorf("%s: Params is not a literal", name)
+						}
+						for _, pe := range pl.Elts {
+							p, err := paramLit(pe)
+							if err != nil {
+								return "", fmt.Errorf("%s: %v", name, err)
+							}
+							params = append(params, p)
+						}
+					case "VarParam":
+						p, err := paramLit(kv.Value)
+						if err != nil {
+							return "", fmt.Errorf("%s: %v", name, err)
+						}
+						varp = "(Some " + p + ")"
+					case "RefineResult":
+						rf, err := refineExpr(kv.Value)
+						if err != nil {
+							return "", fmt.Errorf("%s: %v", name, err)
+						}
+						refine = rf
+					}
+				}
+				entries = append(entries, fmt.Sprintf("  {| se_name := b#\"%s\"; se_params := [%s]; se_var := %s; se_refine := %s |}", name, strings.Join(params, "; "), varp, refine))
+			}
+		}
+	}
+	sb.WriteString("Definition spec_table : list sentry := [\n" + strings.Join(entries, ";\n") + "\n].\n")
+	return sb.String(), nil
 }
 
 const repoRoot = "/repo"
